@@ -27,6 +27,21 @@ type Dom[T comparable] struct {
 	Class   func(a T) string
 	Str     func(a T) string
 	Ordered bool // T has a natural order and CmpName == "nat"
+	Shared  []T  // see sharedArgs
+}
+
+// sharedArgs: one slice per element table (built with the table, before any reader runs) that concurrent
+// read-only calls receive spread as their arguments; the harness only ever reads it.
+func sharedArgs[T comparable](d *Dom[T]) []T {
+	return d.Shared
+}
+
+func (d *Dom[T]) fillShared() {
+	n := min(len(d.Tab), 40)
+	d.Shared = make([]T, n, n+4)
+	for i := range d.Shared {
+		d.Shared[i] = d.Tab[(i*3)%len(d.Tab)]
+	}
 }
 
 func (d *Dom[T]) At(i int) T {
@@ -197,6 +212,7 @@ func intDom(n int, cmpName string, off int) *Dom[int] {
 		}
 	}
 	d.Probes = append(d.Probes, lo-7, hi+7, -(1 << 60), 1<<60)
+	d.fillShared()
 	return d
 }
 
@@ -235,6 +251,7 @@ func strDom(n int, cmpName string, off int) *Dom[string] {
 		}
 	}
 	d.Probes = append(d.Probes, "\x00", "\U0010ffff\U0010ffff", strings.Repeat("q", 40))
+	d.fillShared()
 	return d
 }
 
@@ -258,6 +275,7 @@ func itemDom(n int, cmpName string) *Dom[Item] {
 	}
 	d.Class = func(a Item) string { return "c" + strconv.Itoa(a.P) }
 	d.Probes = []Item{{P: -1000, ID: -1}, {P: 1000, ID: -2}}
+	d.fillShared()
 	return d
 }
 
@@ -352,6 +370,7 @@ func floatDom(n int, cmpName string, off int, noNaN bool) *Dom[float64] {
 	if noNaN {
 		d.Probes[4] = 9.125
 	}
+	d.fillShared()
 	return d
 }
 
@@ -387,6 +406,7 @@ func anyDom(n int, off int) *Dom[any] {
 	}
 	d.Cmp = func(a, b any) int { return strings.Compare(anyStr(a), anyStr(b)) }
 	d.Probes = []any{int8(1), "absent", 2.5, [2]int{9, 9}, uint64(1), &Item{P: 1, ID: 1}}
+	d.fillShared()
 	return d
 }
 
